@@ -322,6 +322,8 @@ func checkC14(r *Run) propMeta {
 		}
 	}
 	checkBuilderRoles(r, p)
+	checkSetKeySpaces(r, "C14-R12-set-key-space", p)
+	checkStaleLookups(r, "C14-R13-stale-lookup", p)
 	// R4: query-side functions never mutate a stored adjacency bitmap
 	var roots []*types.Func
 	// the read interfaces: every method of DirectedGraph and Triplestore (views included), by name
